@@ -171,7 +171,18 @@ impl<T: Qcow2IoOps> Qcow2Dev<T> {
         buf: &mut [u8],
     ) -> Qcow2Result<usize> {
         match mapping.cluster_offset {
-            Some(off) => self.call_read(off + off_in_cls as u64, buf).await,
+            Some(off) => {
+                let done = self.call_read(off + off_in_cls as u64, buf).await?;
+
+                // An allocated cluster may reach beyond the end of the host
+                // file (it was zeroed by hole punching, which never extends
+                // the file, and only partly written): what the file doesn't
+                // hold reads as zeros
+                if done < buf.len() {
+                    buf[done..].fill(0);
+                }
+                Ok(buf.len())
+            }
             None => Err("DataFile mapping: None offset None".into()),
         }
     }
